@@ -121,3 +121,44 @@ PROPS['C02'] = dict(
                 "grammar oracle (incl. 'every type-0 extension is a fixext8') is evaluated on the real bytes.",
     assumptions=_CODEC_ASSUME,
 )
+
+_CHUNK_SUITE = dict(suite='chunk', n=dict(quick=4000, thorough=60000), shards=dict(quick=1, thorough=16), trivial=r'^(-|chunk\.m\.other\..*)$')
+
+PROPS['C11'] = dict(
+    lean_modules=['FluentVerif.Props.C11'],
+    theorems=['FV.C11_agree', 'FV.C11_legacy_witness', 'FV.getChunkKeys_agrees'],
+    suites=[_CHUNK_SUITE],
+    rule="chunk suite: (v) library encodings of the four modes with and without an assigned chunk, (a) messages of the four "
+         "modes with 2/3/4 elements built by the independent encoder: timestamps in every signed/unsigned width, fixext8 and "
+         "ext8 EventTime, every string/array/map header class, option maps with chunk (str or bin) at any position among "
+         "known and unknown keys of any value type, records and entries with nested data and decoy chunk keys, options "
+         "absent / nil, (m) mutations. distinct = distinct (op,args); non-trivial = the input is a well-formed mode message "
+         "(judged by the specification parser) or was produced by the library",
+    explanation="C11_agree: for every byte string the specification parser reads as a well-formed message of any of the four "
+                "modes (any legal encoding of any field, arbitrary record content), getChunk returns exactly the chunk of the "
+                "option map and errs exactly when there is none. Correspondence: protocol.GetChunk and RawMessage.Chunk of "
+                "the working tree equal the model on every line; the oracle compares them with Spec.chunkOf.",
+    assumptions=_CODEC_ASSUME + ["well-formed = non-empty string option keys, no key twice (GetChunk returns the first, full decoding the last)",
+                                 "extension objects nested in records/unknown options are generated in fixext/ext8 form: msgp's stream Skip "
+                                 "rejects ext32 when five or more bytes are buffered (dependency quirk, outside the repository)"],
+)
+
+PROPS['C10'] = dict(
+    lean_modules=['FluentVerif.Props.C10'],
+    theorems=['FV.C10_noPanic_Message', 'FV.C10_noPanic_MessageExt', 'FV.C10_noPanic_Forward', 'FV.C10_noPanic_Packed',
+              'FV.C10_noPanic_Entry', 'FV.C10_noPanic_EntryExt', 'FV.C10_noPanic_EntryList', 'FV.C10_noPanic_Options',
+              'FV.C10_noPanic_Ack', 'FV.C10_noPanic_Helo', 'FV.C10_noPanic_HeloOpts', 'FV.C10_noPanic_Ping', 'FV.C10_noPanic_Pong',
+              'FV.C10_noPanic_getChunk', 'FV.C10_eventTime_total', 'FV.prefix_rejected', 'FV.C10_prefix_Message',
+              'FV.C10_prefix_MessageExt', 'FV.C10_prefix_Forward', 'FV.C10_prefix_Packed', 'FV.C10_prefix_Helo',
+              'FV.C10_prefix_Pong', 'FV.C10_prefix_Ping', 'FV.C10_prefix_Ack'],
+    suites=[_CODEC_SUITE, _CHUNK_SUITE],
+    rule=_CODEC_RULE + " || chunk suite (GetChunk on valid, alternative and mutated inputs)",
+    explanation="C10_noPanic_T / C10_prefix_T: every decoder model returns a value or an error on every byte string, never "
+                "panic; termination is structural; each message decoder rejects every strict prefix of an input it accepts in "
+                "full. Correspondence: the real decoders' outcome class / consumed bytes / value equal the model's on valid, "
+                "alternative and mutated inputs (watchdog 20 s, recover, child process under an address-space limit for "
+                "inputs that declare huge counts).",
+    assumptions=_CODEC_ASSUME + ["non-termination and fatal out-of-memory cannot be exhibited by a theorem: the model excludes them by "
+                                 "construction and the harness watchdog / memory limit is the supporting check",
+                                 "client read paths (HELO/PONG/ack bytes) are covered by the client model, see C05/C04"],
+)
